@@ -5,11 +5,18 @@ import UmModel.BrokerView
 Every mutating entry point of `MetaStore` as one constructor (nondeterministic choices and
 `Utc::now()` are arguments), so that "every reachable state" is `run ops` for a list of `Op`s and
 invariants are proved by induction over that list. The driver executes exactly `step`.
+
+The mode of the broker (`MetaStore::new(enable_ordered_proxy)`) is fixed at construction. Rather
+than a second initial state, the choice is the pseudo-operation `Op.setOrdered`, which has an
+effect only on a store on which nothing has happened yet (`Store.isFresh`): `run (.setOrdered :: ops)`
+is the history `ops` of a broker started with `enable_ordered_proxy = true`, `run ops` with no
+leading `setOrdered` one started in normal mode, and a `setOrdered` anywhere else is a no-op. So
+`Reachable`/`run` cover both modes with `Store.init` as the only initial state.
 -/
 namespace Um.Broker
 
 inductive Op where
-  | addProxy (addr n0 n1 : String) (host : Option String)
+  | addProxy (addr n0 n1 : String) (host : Option String) (index : Option Nat)
   | removeProxy (addr : String)
   | addCluster (name : String) (nodeNum : Nat) (choice : List (String × String))
   | removeCluster (name : String)
@@ -27,6 +34,7 @@ inductive Op where
   | bumpAll (epoch : Nat)
   | recover (epoch : Nat)
   | addFailure (addr reporter : String) (now : Int)
+  | setOrdered
   deriving Repr
 
 /-- result summary of a step (what the API caller sees besides the new state) -/
@@ -44,7 +52,7 @@ def Outcome.ofR {α} (f : α → String) : R α → Outcome
   | .badChoice w => .badChoice w
 
 def stepFull (s : Store) : Op → Store × Outcome
-  | .addProxy a n0 n1 h => let p := addProxy s a n0 n1 h; (p.1, .ofR (fun _ => "") p.2)
+  | .addProxy a n0 n1 h i => let p := addProxy s a n0 n1 h i; (p.1, .ofR (fun _ => "") p.2)
   | .removeProxy a => let p := removeProxy s a; (p.1, .ofR (fun _ => "") p.2)
   | .addCluster n k c => let p := addCluster s n k defaultConfig c; (p.1, .ofR (fun _ => "") p.2)
   | .removeCluster n => let p := removeCluster s n; (p.1, .ofR (fun _ => "") p.2)
@@ -62,6 +70,7 @@ def stepFull (s : Store) : Op → Store × Outcome
   | .bumpAll e => let p := forceBumpAllEpoch s e; (p.1, .ofR (fun _ => "") p.2)
   | .recover e => (recoverEpoch s e, .ok "")
   | .addFailure a r t => let p := addFailure s a r t; (p.1, .ok s!" {p.2}")
+  | .setOrdered => (s.setOrdered, .ok "")
 
 /-- the new state; a step whose nondeterministic choice is not one the code can make, or that
 panics, leaves the state unchanged (the theorems about panics are stated on `stepFull`) -/
@@ -73,5 +82,8 @@ def step (s : Store) (op : Op) : Store :=
   | (_, .badChoice _) => s
 
 def run (ops : List Op) : Store := ops.foldl step Store.init
+
+/-- histories of a broker started in ordered mode -/
+def runOrdered (ops : List Op) : Store := run (.setOrdered :: ops)
 
 end Um.Broker
